@@ -15,6 +15,7 @@
 
 """Functions for the CLI portion of manipulating headers."""
 
+import errno
 import logging
 import sys
 from typing import IO, Optional, Type, cast
@@ -124,6 +125,11 @@ def add_header_to_file(
                     out.write("\n")
                     return 1
                 created_license_file = not path.exists()
+                if not created_license_file and not path.is_file():
+                    # A directory, a named pipe, ...
+                    raise IsADirectoryError(
+                        errno.EISDIR, _("not a regular file"), str(path)
+                    )
                 path.touch()
             except OSError as error:
                 out.write(
